@@ -89,20 +89,20 @@ def liftOutcome : Outcome Aln → PRes
   | .hang => .hang
 
 def modelParse (fmt : String) (o : POpts) (bs : List Byte) : Option PRes :=
-  -- every model is defined on ALL byte strings (rune decoding modelled: Model/Fmt/Utf8.lean); `none` = no claim
+  -- every model is defined on ALL byte strings (rune decoding and rune-wise upper-casing modelled: Model/Fmt/Utf8.lean)
   match fmt with
   | "fasta" => some (liftOutcome (Fasta.parseBytes Gen.FmtFacts.fasta_rejects_empty o bs))
   | "phylip" =>
     match Phylip.parseOne Gen.FmtFacts.phylip_allocates_from_header o { inp := Utf8.norm bs } with
     | .ok (.slow, _) => none      -- allocation of 2^27 … 2^44 entries: machine dependent, not compared
     | r => some (Phylip.toOutcome r)
-  | "stockholm" => (Stockholm.parseBytes Gen.FmtFacts.stockholm_markup_stops_at_eof
-      Gen.FmtFacts.stockholm_rejects_empty o bs).map liftOutcome
-  | "clustal" => (Clustal.parseBytes Gen.FmtFacts.clustal_checks_row_index o bs).map liftOutcome
-  | "nexus" => (Nexus.parseBytes ⟨Gen.FmtFacts.nexus_comment_stops_at_eof,
+  | "stockholm" => some (liftOutcome (Stockholm.parseBytes Gen.FmtFacts.stockholm_markup_stops_at_eof
+      Gen.FmtFacts.stockholm_rejects_empty o bs))
+  | "clustal" => some (liftOutcome (Clustal.parseBytes Gen.FmtFacts.clustal_checks_row_index o bs))
+  | "nexus" => some (liftOutcome (Nexus.parseBytes ⟨Gen.FmtFacts.nexus_comment_stops_at_eof,
       Gen.FmtFacts.nexus_rejects_negative_counts, Gen.FmtFacts.nexus_rejects_empty_rows,
       Gen.FmtFacts.nexus_keyword_rows_are_residues, Gen.FmtFacts.nexus_rejects_nested_begin,
-      Gen.FmtFacts.nexus_empty_command_is_noop, Gen.FmtFacts.nexus_rejects_second_data_block⟩ o bs).map liftOutcome
+      Gen.FmtFacts.nexus_empty_command_is_noop, Gen.FmtFacts.nexus_rejects_second_data_block⟩ o bs))
   | _ => none
 
 /-- what `buildAlign` of the harness does: AddSequence one by one under IGNORE_NONE -/
